@@ -3,7 +3,7 @@
 ALL = ["CreateGroup", "CreateObject", "AddData", "AddVisual", "AddComment", "AddFile", "CreateWithUid", "Rename", "SetFlag", "SetVal", "SetMeta", "Move", "MoveSame", "AddToGroup",
        "AddDataFails", "StripOpt", "SaveAs", "Helper", "Copy2", "Remove2", "ScrubData", "CreateDeferred", "PGWithUid",
        "RemoveFromGroup", "RemovePG", "RemoveViaWorkspace", "RemoveViaParent", "DropRef", "Collect", "Purge",
-       "LookupDead", "Copy", "Close", "Open", "CallClosed", "RemoveBlocked", "OpenAgain", "SetType", "Copy2Data", "RemoveNotAChild", "CopyIntoSelf", "AddDataLike", "RemovePair"]
+       "LookupDead", "Copy", "Close", "Open", "CallClosed", "RemoveBlocked", "OpenAgain", "SetType", "Copy2Data", "RemoveNotAChild", "CopyIntoSelf", "AddDataLike", "RemovePair", "AddDataRefused"]
 INV_ASBUILT = ["TypeOK", "DirtyOnlyInRW", "W2WellFormed", "ReopenEqualsLive", "LinksToNodes", "OneParent", "PGPropsAreChildren", "WriteThrough",
                "NoDanglingPG", "RegistryMatchesMemory"]
 PROPS = ["Footprint", "FrozenFile", "OptStaysStripped", "FreshOnlyWhenTaken"]
@@ -30,7 +30,7 @@ def minus(*drop):
 
 
 GC = ["DropRef", "Collect", "Purge", "LookupDead"]
-NEW = ["RemoveBlocked", "OpenAgain", "SetType", "Copy2Data", "RemoveNotAChild", "CopyIntoSelf", "AddDataLike", "RemovePair", "AddComment", "AddFile", "AddVisual", "SetMeta", "MoveSame", "AddDataFails", "StripOpt", "SaveAs", "Helper", "Copy2", "Remove2", "ScrubData", "CreateDeferred", "PGWithUid"]
+NEW = ["RemoveBlocked", "OpenAgain", "SetType", "Copy2Data", "RemoveNotAChild", "CopyIntoSelf", "AddDataLike", "RemovePair", "AddDataRefused", "AddComment", "AddFile", "AddVisual", "SetMeta", "MoveSame", "AddDataFails", "StripOpt", "SaveAs", "Helper", "Copy2", "Remove2", "ScrubData", "CreateDeferred", "PGWithUid"]
 BASE = minus("CreateWithUid", "CallClosed", *NEW)
 # --- C01: histories of create/assign/rename/move/copy/delete with close/re-open and GC points
 cfg("C01_quick", 1, 1, 1, 1, [a for a in BASE if a != "SetFlag"] + ["MoveSame", "CreateDeferred", "AddDataFails"], 6, names=("a",), vals=(1, 2))
@@ -85,8 +85,8 @@ cfg("C06x_thorough", 2, 1, 2, 1, C06X + ["Close", "Open"], 8, names=("a",), vals
 # --- C09: every single mutation applied to every reachable state; footprint; files with omitted optional attributes
 cfg("C09_quick", 1, 1, 1, 1, [a for a in BASE if a != "LookupDead"] + ["MoveSame", "StripOpt"], 6, names=("a", "b"), vals=(1, 2))
 # bystanders: several data sets (shared types), visual parameters, shallow copies, metadata
-cfg("C09by_quick", 0, 2, 2, 1, ["CreateObject", "AddData", "AddVisual", "Copy", "SetVal", "SetMeta", "Rename", "AddToGroup",
-                                "RemoveViaWorkspace", "Close", "Open"], 5, names=("a",), vals=(1, 2))
+cfg("C09by_quick", 0, 2, 2, 1, ["CreateObject", "AddData", "AddVisual", "AddComment", "AddFile", "AddDataRefused", "Copy", "SetVal", "SetMeta",
+                                "Rename", "AddToGroup", "RemoveViaWorkspace", "Collect", "DropRef", "Purge", "Close", "Open"], 5, names=("a",), vals=(1, 2))
 # shared data types: copies share the type of their source; re-assigning the type of one data set leaves the others alone
 cfg("C09ty_quick", 0, 1, 3, 1, ["CreateObject", "AddData", "AddDataLike", "Copy", "SetType", "SetVal", "RemoveViaWorkspace", "Collect", "DropRef",
                                 "Close", "Open"], 8, names=("a",), vals=(1,))
